@@ -7,6 +7,10 @@ import EudoxiaModel.Proofs.Store
 import EudoxiaModel.Proofs.Built
 import EudoxiaModel.Proofs.Progress
 import EudoxiaModel.Proofs.NaiveSafe
+import EudoxiaModel.Proofs.WorldLive
+import EudoxiaModel.Proofs.NaiveLoop
+import EudoxiaModel.Proofs.NaiveMulti
+import EudoxiaModel.Proofs.NaiveExample
 /-! # C08 — shipped schedulers decide admissibly (per-round theorems; the run-to-the-end statement is checked on traces, see DESIGN.md)
 
 `partial`: what is proved here is, for every world and queue state, that one round of `priority` / `priority-pool` asks each pool for no more
@@ -507,6 +511,46 @@ theorem pool_tick_raises_only_at_the_gates {cfg : Cfg} {w : Store} {p : Pool} {n
     (∃ w' p' n' res, poolTick cfg w p n cm = .ok (w', p', n', res) ∧ PoolReadyF cfg w' p') ∨
     (∃ e st, poolTick cfg w p n cm = .error (e, some st) ∧ e.isGate = true) :=
   poolTick_raises_only_at_the_gates g rd ha hs hnd
+
+/-- **`Executor.run_one_tick` raises only at its gates.**  From a ready world, after any chain of accepted `Assignment` constructions whose operator lists are
+in dependency order and have segments, and with suspension requests naming each container at most once, the executor tick either succeeds and leaves a
+ready world, or refuses the commands up front (unknown pool; unknown or unsuspendable container; oversold CPU or RAM; wrong operator count) in a well-defined
+state.  Nothing fails in the middle of a tick.  (`WorldReady`, `ParentsOK`: Proofs/WorldLive.lean, Proofs/Progress.lean.) -/
+theorem executor_tick_raises_only_at_the_gates (w0 w1 : World) (asgs : List Asg) (sus : List (Nat × Nat))
+    (hr : WorldReady w0) (hb : Built w0 asgs w1) (hseg : ∀ a ∈ asgs, ∀ r ∈ a.ops, w0.store.segsOf r ≠ [])
+    (hpar : ∀ a ∈ asgs, ParentsOK w1.store a.ops) (hsus : ∀ i, ((sus.filter (·.1 == i)).map (·.2)).Nodup) :
+    (∃ w2 res, w1.execTick sus asgs = .ok (w2, res) ∧ WorldReady w2) ∨
+    (∃ e st, w1.execTick sus asgs = .error (e, some st) ∧ (e.isGate = true ∨ e = .unknownPool)) :=
+  execTick_raises_only_at_the_gates w0 w1 asgs sus hr hb hseg hpar hsus
+
+/-- **if the gates let the commands through, the tick succeeds** and the world is ready for the next one -/
+theorem executor_tick_succeeds_when_the_gates_pass (w0 w1 : World) (asgs : List Asg)
+    (hr : WorldReady w0) (hb : Built w0 asgs w1) (hseg : ∀ a ∈ asgs, ∀ r ∈ a.ops, w0.store.segsOf r ≠ [])
+    (hpar : ∀ a ∈ asgs, ParentsOK w1.store a.ops) (hpool : ∀ a ∈ asgs, a.pool < w1.pools.length)
+    (hv : ∀ k p, w1.pools[k]? = some p → (asgs.filter (·.pool == k)).isEmpty = true ∨ verifyAssignments w1.cfg p (asgs.filter (·.pool == k)) = .ok ())
+    (hcnt : ∀ a ∈ asgs, opCountOk w1.cfg a = true) :
+    ∃ w2 res, w1.execTick [] asgs = .ok (w2, res) ∧ WorldReady w2 :=
+  let ⟨w2, res, h, r, _⟩ := execTick_succeeds_of_gates w0 w1 asgs hr hb hseg hpar hpool hv hcnt; ⟨w2, res, h, r⟩
+
+/-- **the whole run, for one shipped policy.**  The naive scheduler with single-operator containers — which is also the starter scheduler written by
+`eudoxia init` — drives the simulation to its last tick without raising: from a ready world (e.g. a fresh one, `fresh_world_ready`) whose pipelines list
+existing operators once and give each a segment, for every sequence of arrival batches. -/
+theorem naive_single_operator_run_never_raises (arrivals : List (List Nat)) (w : World) (st : Naive.St) (res : List Res)
+    (hr : WorldReady w) (wf : w.WFP) (hs : w.SegsOK) (hm : w.cfg.multiOp = false) : ∃ out, Naive.loop w st res arrivals = .ok out :=
+  Naive.run_never_raises arrivals w st res hr wf hs hm
+
+/-- **the whole run, default configuration of the naive scheduler.**  With multi-operator containers the naive scheduler drives the simulation to its last
+tick without raising: from a ready world without write-outs whose pipelines are well-formed DAGs listed in topological order (`NaiveInv`: operators exist, are
+listed once, have a segment, belong to the pipeline that lists them, come after their parents; the counts are the histogram), for every sequence of arrival
+batches.  The proof carries "a pipeline with an operator in a container has no operator waiting" through rounds and ticks. -/
+theorem naive_multi_operator_run_never_raises (arrivals : List (List Nat)) (w : World) (st : Naive.St) (res : List Res)
+    (hr : WorldReady w) (inv : NaiveInv w) (hns : w.NoSusp) (hm : w.cfg.multiOp = true) : ∃ out, Naive.loopM true w st res arrivals = .ok out :=
+  Naive.run_multi_never_raises arrivals w st res hr inv hns hm
+
+/-- the hypotheses of both whole-run theorems are met by a concrete world (a diamond DAG a → {b, c} → d on two pools, nothing started): non-vacuity -/
+theorem whole_run_theorems_apply_to_a_concrete_world (arrivals : List (List Nat)) :
+    (∃ out, Naive.loop (NaiveExample.world false) {} [] arrivals = .ok out) ∧ (∃ out, Naive.loopM true (NaiveExample.world true) {} [] arrivals = .ok out) :=
+  NaiveExample.runs arrivals
 
 /-- a fresh pool is ready (non-vacuity of the hypotheses above) -/
 theorem fresh_pool_ready (cfg : Cfg) (w : Store) (cpus ram : Nat) : PoolReadyF cfg w (Pool.fresh cpus ram) :=
